@@ -613,7 +613,7 @@ func (g *G) hdBody(op, delim string, quoted bool) string {
 			pool = 26
 		}
 		if g.S.Chance(1, 12) {
-			pool = 37 // includes the rare lines 26..36 (and, with HDMultiLine only, 24/25/36)
+			pool = 39 // includes the rare lines 26..38 (and, with HDMultiLine only, 24/25/36)
 		}
 		if g.O.HeredocBodyPool == 1 {
 			pool = 4
@@ -675,6 +675,15 @@ func (g *G) hdBody(op, delim string, quoted bool) string {
 			} else {
 				line = "$x " + delim
 			}
+		case 38:
+			// a line continuation right in front of text that looks like the delimiter: the joined line is no delimiter line
+			if quoted {
+				line = "cont \\" + "\nafter a literal backslash"
+			} else {
+				line = "x \\\n" + delim
+			}
+		case 37:
+			line = "cont \\\nafter a continuation" // backslash-newline inside the body (a continuation iff the delimiter is unquoted)
 		case 36:
 			line = "sub $(a\n" + delim + "\nb c) end" // a line equal to the delimiter INSIDE a multi-line substitution does not end the body
 		case 35:
